@@ -195,6 +195,7 @@ pub fn replay(args: &[String]) {
             } else { None };
             let allow_redirects = v["allowRedirects"].as_bool().unwrap();
             let statuses = [301u16, 302, 303, 307, 308];
+            let mut cur_scheme = v["first"]["uri"]["scheme"].as_str().unwrap().to_string();
             let answers: Vec<(u16, Option<String>, bool)> = v["script"].as_array().unwrap().iter().map(|a| {
                 match a["kind"].as_str().unwrap() {
                     "final" => (200, None, false),
@@ -204,7 +205,17 @@ pub fn replay(args: &[String]) {
                         let l = match loc["kind"].as_str().unwrap() {
                             "rel" => ["/next", "other/path?q=1", "../up", "?only=query"][rng.gen_range(0..4)].to_string(),
                             "bad" => ["http://[::1", "http://exa mple.org/", "https://[zz]/"][rng.gen_range(0..3)].to_string(),
-                            _ => uri_str(&loc["uri"], &mut rng, false),
+                            _ => {
+                                let full = uri_str(&loc["uri"], &mut rng, false);
+                                let tscheme = loc["uri"]["scheme"].as_str().unwrap().to_string();
+                                // scheme-less (network-path) references resolve against the current scheme
+                                let l = if tscheme == cur_scheme && rng.gen_bool(0.35) {
+                                    let rest = full.splitn(2, "://").nth(1).unwrap().to_string();
+                                    match rng.gen_range(0..3) { 0 => format!("//{rest}"), 1 => format!("/\\{rest}"), _ => format!("\\/{rest}") }
+                                } else { full };
+                                cur_scheme = tscheme;
+                                l
+                            }
                         };
                         (statuses[rng.gen_range(0..5)], Some(l), false)
                     }
